@@ -59,9 +59,7 @@ def close(a, b, rtol=RTOL, atol=ATOL):
     return bool(np.all(np.abs(a[fin] - b[fin]) <= atol + rtol * np.maximum(np.abs(a[fin]), np.abs(b[fin]))))
 
 
-# =====================================================================================================
-# semirings
-# =====================================================================================================
+# ==== SECTION: COMMON ====  semirings
 
 
 class Semiring:
@@ -79,12 +77,12 @@ class Semiring:
         """well-conditioned data on the carrier of the semiring"""
         shape = tuple(shape)
         if self.carrier == "bool":
-            return rs.rand(*shape) < 0.6
+            return np.asarray(rs.rand(*shape) < 0.6)
         if self.carrier == "nonneg":
-            return 0.3 + 1.5 * rs.rand(*shape)
+            return np.asarray(0.3 + 1.5 * rs.rand(*shape))
         if self.name == "add_mul":
-            return (0.4 + 1.1 * rs.rand(*shape)) * np.where(rs.rand(*shape) < 0.3, -1.0, 1.0)
-        return rs.randn(*shape)
+            return np.asarray((0.4 + 1.1 * rs.rand(*shape)) * np.where(rs.rand(*shape) < 0.3, -1.0, 1.0))
+        return np.asarray(rs.randn(*shape))
 
     def power(self, arr, k):
         """k-fold semiring product of arr with itself (k integer >= 0)"""
@@ -337,9 +335,7 @@ def param_ops(sr, kind):
     raise ValueError(kind)
 
 
-# =====================================================================================================
-# C10  Markov products
-# =====================================================================================================
+# ==== SECTION: C10 ====  Markov products
 
 
 def markov_setup(case):
@@ -468,6 +464,13 @@ def sb_oracle(sr, T, sizes, names, data, case):
     Eliminate v@s for 0 <= s <= T-2 by a left-to-right fold over t, summing a copy out as soon as no later factor
     mentions it.  Output: v@(T-1) is called v, v@(-j) is called _PREV_^j v."""
     vars_ = {v: (n, list(lags)) for v, (n, lags) in zip("abc", case["vars"])}
+    if not any(lags for _, lags in vars_.values()):
+        # not a time-lagged model (precondition of the fold contract fails): both functions are documented to
+        # degenerate to the plain semiring product over time with every input shared -- check exactly that.
+        acc = nt_index((names, data), "time", 0)
+        for t in range(1, T):
+            acc = nt_mul(sr, acc, nt_index((names, data), "time", t))
+        return acc, dict(sizes)
     usizes = {}
     factors = []
     for t in range(T):
@@ -527,17 +530,912 @@ def check_sb(case, out):
                 out.fail("C10.sarkka_bilmes_vs_naive", d, tags0 + ["sarkka_bilmes_vs_naive", "num_periods-%d" % npd])
 
 
-# =====================================================================================================
-# dispatch / replay
-# =====================================================================================================
+# ==== SECTION: C08 ====  normal forms, unfold, optimizer, einsum
 
-CHECKERS = {"markov": check_markov, "sb": check_sb}
+EINSUM_BACKENDS = {"add_mul": "numpy", "logaddexp_add": "funsor.einsum.numpy_log", "max_add": "funsor.einsum.numpy_map"}
+
+
+def expr_setup(case):
+    """operands (funsor + oracle side) of an expression case"""
+    sr = SEMIRINGS[case["sr"]]
+    rs = np.random.RandomState(case["seed"])
+    sizes = dict(case["sizes"])
+    leaves = []
+    for spec in case["leaves"]:
+        names = tuple(spec["vars"])
+        names = tuple(names[i] for i in rs.permutation(len(names)))
+        data = sr.gen(rs, [sizes[n] for n in names])
+        leaves.append((names, data, spec.get("param")))
+    return sr, sizes, leaves
+
+
+def expr_oracle(sr, sizes, leaves, expr, w):
+    """naive structural evaluation with named tables"""
+    k = expr[0]
+    if k == "leaf":
+        names, data, param = leaves[expr[1]]
+        if param == "var":
+            return ((), np.asarray(w))
+        if param:
+            data = param_ops(sr, param)[1](data, w)
+        return (names, data)
+    if k == "prod":
+        acc = expr_oracle(sr, sizes, leaves, expr[1][0], w)
+        for e in expr[1][1:]:
+            acc = nt_mul(sr, acc, expr_oracle(sr, sizes, leaves, e, w))
+        return acc
+    if k == "mul":
+        return nt_mul(sr, expr_oracle(sr, sizes, leaves, expr[1], w), expr_oracle(sr, sizes, leaves, expr[2], w))
+    if k == "add":
+        return nt_add(sr, expr_oracle(sr, sizes, leaves, expr[1], w), expr_oracle(sr, sizes, leaves, expr[2], w))
+    if k == "red":
+        return nt_reduce(sr, expr_oracle(sr, sizes, leaves, expr[1], w), list(expr[2]), sizes)
+    if k == "ren":
+        return nt_rename(expr_oracle(sr, sizes, leaves, expr[1], w), dict(expr[2]))
+    if k == "idx":
+        return nt_index(expr_oracle(sr, sizes, leaves, expr[1], w), expr[2], expr[3])
+    raise ValueError(k)
+
+
+def expr_build(sr, sizes, fleaves, expr):
+    """the same expression with funsor's python operators, under whatever interpretation is active"""
+    k = expr[0]
+    if k == "leaf":
+        return fleaves[expr[1]]
+    if k == "prod":
+        acc = expr_build(sr, sizes, fleaves, expr[1][0])
+        for e in expr[1][1:]:
+            acc = sr.prod_op(acc, expr_build(sr, sizes, fleaves, e))
+        return acc
+    if k == "mul":
+        return sr.prod_op(expr_build(sr, sizes, fleaves, expr[1]), expr_build(sr, sizes, fleaves, expr[2]))
+    if k == "add":
+        return sr.sum_op(expr_build(sr, sizes, fleaves, expr[1]), expr_build(sr, sizes, fleaves, expr[2]))
+    if k == "red":
+        rv = frozenset(Variable(v, Bint[sizes[v]]) for v in expr[2])
+        return expr_build(sr, sizes, fleaves, expr[1]).reduce(sr.sum_op, rv)
+    if k == "ren":
+        return expr_build(sr, sizes, fleaves, expr[1])(**dict(expr[2]))
+    if k == "idx":
+        return expr_build(sr, sizes, fleaves, expr[1])(**{expr[2]: expr[3]})
+    raise ValueError(k)
+
+
+def expr_tags(expr, acc=None):
+    acc = set() if acc is None else acc
+    k = expr[0]
+    if k != "leaf":
+        acc.add(k)
+    if k == "prod":
+        for e in expr[1]:
+            expr_tags(e, acc)
+    elif k in ("mul", "add"):
+        expr_tags(expr[1], acc)
+        expr_tags(expr[2], acc)
+    elif k in ("red", "ren", "idx"):
+        expr_tags(expr[1], acc)
+    return acc
+
+
+def expr_free(leaves, expr):
+    """free names of the naive term (syntactic)"""
+    k = expr[0]
+    if k == "leaf":
+        return set(leaves[expr[1]][0])
+    if k == "prod":
+        return set().union(*(expr_free(leaves, e) for e in expr[1]))
+    if k in ("mul", "add"):
+        return expr_free(leaves, expr[1]) | expr_free(leaves, expr[2])
+    if k == "red":
+        return expr_free(leaves, expr[1]) - set(expr[2])
+    if k == "ren":
+        m = dict(expr[2])
+        return {m.get(n, n) for n in expr_free(leaves, expr[1])}
+    if k == "idx":
+        return expr_free(leaves, expr[1]) - {expr[2]}
+
+
+def monomials(leaves, expr):
+    """expr as a formal sum of products: list of variable sets, one per summand after full distribution
+    (inner reductions are looked through: their summands minus the bound variables)"""
+    k = expr[0]
+    if k == "leaf":
+        return [frozenset(leaves[expr[1]][0])]
+    if k in ("prod", "mul"):
+        parts = expr[1] if k == "prod" else (expr[1], expr[2])
+        acc = [frozenset()]
+        for e in parts:
+            acc = [m | n for m in acc for n in monomials(leaves, e)]
+        return acc
+    if k == "add":
+        return monomials(leaves, expr[1]) + monomials(leaves, expr[2])
+    if k == "red":
+        return [mono - set(expr[2]) for mono in monomials(leaves, expr[1])]  # normalisation fuses nested reductions
+    if k == "ren":
+        m = dict(expr[2])
+        return [frozenset(m.get(n, n) for n in mono) for mono in monomials(leaves, expr[1])]
+    if k == "idx":
+        return [mono - {expr[2]} for mono in monomials(leaves, expr[1])]
+
+
+def reduction_tags(leaves, expr, acc=None):
+    """'unrelated-var': some reduction ranges over a variable that a whole summand of its operand does not mention
+    (so a multiplicity |var| is owed);  'operand-lacks-reduced-var': only single factors lack it (plain sum-product)"""
+    acc = set() if acc is None else acc
+    k = expr[0]
+    if k == "leaf":
+        return acc
+    if k == "prod":
+        for e in expr[1]:
+            reduction_tags(leaves, e, acc)
+        return acc
+    if k in ("mul", "add"):
+        reduction_tags(leaves, expr[1], acc)
+        reduction_tags(leaves, expr[2], acc)
+        return acc
+    if k == "red":
+        rv = set(expr[2])
+        if any(not rv <= mono for mono in monomials(leaves, expr[1])):
+            acc.add("unrelated-var")
+
+        def leafsets(e):
+            if e[0] == "leaf":
+                return [set(leaves[e[1]][0])]
+            if e[0] == "prod":
+                return [x for f in e[1] for x in leafsets(f)]
+            if e[0] in ("mul", "add"):
+                return leafsets(e[1]) + leafsets(e[2])
+            return [expr_free(leaves, e)]
+
+        if any(not rv <= ls for ls in leafsets(expr[1])):
+            acc.add("operand-lacks-reduced-var")
+    reduction_tags(leaves, expr[1], acc)
+    return acc
+
+
+def check_expr(case, out):
+    from funsor.optimizer import apply_optimizer, unfold
+
+    sr, sizes, leaves = expr_setup(case)
+    expr = case["expr"]
+    anyparam = any(p for _, _, p in leaves)
+    points = PARAM_POINTS if anyparam else [{}]
+    wv = Variable("w", Real)
+    fleaves = []
+    for names, data, param in leaves:
+        t = mk_tensor(names, data, sizes, sr.dtype)
+        if param == "var":
+            t = wv
+        elif param:
+            t = param_ops(sr, param)[0](t, wv)
+        fleaves.append(t)
+    cache = {}
+
+    def want_at(pt):
+        w = pt.get("w")
+        if w not in cache:
+            cache[w] = expr_oracle(sr, sizes, leaves, expr, w)
+        return cache[w]
+
+    et = expr_tags(expr)
+    tags0 = [sr.name, case.get("family", "expr").split(":")[0]] + sorted(reduction_tags(leaves, expr)) + sorted({"param-" + p for _, _, p in leaves if p}) + (["sum-node"] if "add" in et else []) + (["subs"] if et & {"ren", "idx"} else [])
+    key = (case["sr"], repr(expr), repr(case["leaves"]), repr(sorted(sizes.items())), case["seed"])
+    nontrivial = any(sizes[v] >= 2 for names, _, _ in leaves for v in names) and len(leaves) >= 2
+
+    def run(name, thunk):
+        return observe(out, "C08." + name, (key, name), nontrivial, thunk, want_at, sizes, points, tags0 + [name])
+
+    def build():
+        return expr_build(sr, sizes, fleaves, expr)
+
+    run("eager", build)
+
+    def via(interp):
+        with interp:
+            return build()
+
+    run("reflect_then_eager", lambda: reinterpret(via(reflect)))
+    run("lazy_then_eager", lambda: reinterpret(via(lazy)))
+    run("normalize_then_eager", lambda: reinterpret(via(normalize)))
+    run("lazy_then_optimizer", lambda: apply_optimizer(via(lazy)))
+    run("reflect_then_optimizer", lambda: apply_optimizer(via(reflect)))
+    run("normalize_then_optimizer", lambda: apply_optimizer(via(normalize)))
+
+    def unfolded(interp):
+        t = via(interp)
+        with unfold:
+            u = reinterpret(t)
+        return reinterpret(u)
+
+    run("lazy_unfold_then_eager", lambda: unfolded(lazy))
+    run("reflect_unfold_then_eager", lambda: unfolded(reflect))
+
+    # idempotence of normalize: normalising a normalised term returns the identical object
+    try:
+        t = via(normalize)
+        with normalize:
+            t2 = reinterpret(t)
+    except Exception as e:
+        out.decline("C08.normalize_idempotent", exc_reason(e))
+    else:
+        out.ok("C08.normalize_idempotent", (key, "idem"), nontrivial)
+        if t2 is not t:
+            out.fail("C08.normalize_idempotent", "normalize(normalized term) is not the same object:\n first  %s\n second %s" % (t, t2), tags0 + ["normalize_idempotent"])
+
+    # einsum front ends (flat expressions whose reduced variables all occur in some operand)
+    if case.get("family") == "flat" and sr.name in EINSUM_BACKENDS and not anyparam:
+        import funsor.einsum as E
+
+        assert expr[0] == "prod" or (expr[0] == "red" and expr[1][0] == "prod")
+        ops_ = expr[1][1] if expr[0] == "red" else expr[1]
+        red = set(expr[2]) if expr[0] == "red" else set()
+        idxs = [e[1] for e in ops_]
+        allv = set().union(*(set(leaves[i][0]) for i in idxs)) if idxs else set()
+        if red <= allv and all(e[0] == "leaf" for e in ops_):
+            outv = "".join(sorted(allv - red))
+            outv = "".join(outv[i] for i in np.random.RandomState(case["seed"] + 5).permutation(len(outv)))
+            eqn = ",".join("".join(leaves[i][0]) for i in idxs) + "->" + outv
+            b = EINSUM_BACKENDS[sr.name]
+            fl = [fleaves[i] for i in idxs]
+            run("einsum", lambda: E.einsum(eqn, *fl, backend=b))
+            run("naive_einsum", lambda: E.naive_einsum(eqn, *fl, backend=b))
+            run("naive_plated_einsum", lambda: E.naive_plated_einsum(eqn, *fl, backend=b, plates=""))
+
+
+def check_einsum(case, out):
+    """every front end / backend of funsor.einsum on one equation"""
+    import opt_einsum
+
+    import funsor.einsum as E
+    import funsor.einsum.numpy_log as NL
+    import funsor.einsum.numpy_map as NM
+
+    sr = SEMIRINGS[case["sr"]]
+    rs = np.random.RandomState(case["seed"])
+    sizes = dict(case["sizes"])
+    inputs = list(case["inputs"])
+    output = case["output"]
+    arrays = [sr.gen(rs, [sizes[c] for c in inp]) for inp in inputs]
+    nts = [(tuple(inp), a) for inp, a in zip(inputs, arrays)]
+    allv = sorted(set("".join(inputs)))
+    joint = nt_joint(sr, nts)
+    want = nt_reduce(sr, joint, [v for v in allv if v not in output])
+    # the dumbest evaluation agrees with the broadcasting one (oracle self-check on small spaces)
+    if np.prod([sizes[v] for v in allv] or [1]) <= 64:
+        loop = nt_pointwise_loop(sr, nts, tuple(output), [v for v in allv if v not in output], sizes)
+        assert compare(loop, want, sizes) is None and compare(want, loop, sizes) is None, "oracle self-check"
+    eqn = ",".join(inputs) + "->" + output
+    b = EINSUM_BACKENDS[sr.name]
+    fl = [mk_tensor(tuple(inp), a, sizes) for inp, a in zip(inputs, arrays)]
+    key = (case["sr"], eqn, repr(sorted(sizes.items())), case["seed"])
+    nontrivial = len(allv) >= 1 and any(sizes[v] >= 2 for v in allv)
+    tags0 = [sr.name, "einsum-eqn", "%d-operands" % len(inputs)] + (["scalar-operand"] if "" in inputs else []) + (["repeated-operand-sig"] if len(set(inputs)) < len(inputs) else [])
+
+    def run(name, thunk):
+        return observe(out, "C08." + name, (key, name), nontrivial, thunk, lambda pt: want, sizes, [{}], tags0 + [name])
+
+    run("einsum", lambda: E.einsum(eqn, *fl, backend=b))
+    run("naive_einsum", lambda: E.naive_einsum(eqn, *fl, backend=b))
+    run("naive_plated_einsum", lambda: E.naive_plated_einsum(eqn, *fl, backend=b, plates=""))
+    if sr.name == "add_mul":
+        run("naive_contract_einsum", lambda: reinterpret(E.naive_contract_einsum(eqn, *fl, backend=b)))
+
+    def reflect_opt():
+        from funsor.optimizer import apply_optimizer
+
+        with reflect:
+            ast = E.naive_einsum(eqn, *fl, backend=b)
+            opt = apply_optimizer(ast)
+        return reinterpret(opt)
+
+    run("einsum_reflect_optimizer", reflect_opt)
+
+    # raw array backends: result axes must follow the output string
+    def raw(name, fn):
+        contract = "C08." + name
+        try:
+            r = np.asarray(fn())
+        except Exception as e:
+            out.decline(contract, exc_reason(e))
+            return
+        out.ok(contract, (key, name), nontrivial)
+        if r.ndim != len(output):
+            out.fail(contract, "result of rank %d for output %r" % (r.ndim, output), tags0 + [name, "rank"])
+            return
+        d = compare((tuple(output), r), want, sizes)
+        if d is not None:
+            out.fail(contract, d, tags0 + [name])
+
+    if sr.name == "logaddexp_add":
+        raw("numpy_log.einsum", lambda: NL.einsum(eqn, *arrays))
+    if sr.name == "max_add":
+        raw("numpy_map.einsum", lambda: NM.einsum(eqn, *arrays))
+    if sr.name != "add_mul":
+        raw("opt_einsum.contract[%s]" % b.split(".")[-1], lambda: opt_einsum.contract(eqn, *arrays, backend=b))
+
+
+# ==== SECTION: C09 ====  plated sum-product
+
+
+def ve_eliminate(sr, factors, elim):
+    """plain variable elimination on named tables (exact; order = smallest intermediate table first)"""
+    factors = list(factors)
+    elim = [e for e in dict.fromkeys(elim)]
+    while elim:
+        best = None
+        for v in elim:
+            touching = [f for f in factors if v in f[0]]
+            size = 1
+            seen = {}
+            for f in touching:
+                for n, k in zip(f[0], np.shape(f[1])):
+                    seen[n] = k
+            for n, k in seen.items():
+                size *= k
+            if best is None or size < best[0]:
+                best = (size, v, touching)
+        _, v, touching = best
+        elim.remove(v)
+        if not touching:
+            continue
+        rest = [f for f in factors if not any(f is t for t in touching)]
+        prod = nt_joint(sr, touching)
+        rest.append(nt_reduce(sr, prod, [v]))
+        factors = rest
+    return nt_joint(sr, factors)
+
+
+def plated_lives(factors, plates):
+    """variable -> set of plates it lives in (= plates common to all factors mentioning it)"""
+    lives = {}
+    for names, _ in factors:
+        fp = {n for n in names if n in plates}
+        for n in names:
+            if n not in plates:
+                lives[n] = fp if n not in lives else lives[n] & fp
+    return lives
+
+
+def plated_valid(factors, plates, elim):
+    """no preserved variable lives in an eliminated plate"""
+    lives = plated_lives(factors, plates)
+    return all(not (lives[v] & set(elim)) for v in lives if v not in elim)
+
+
+def plated_oracle(sr, factors, plates, elim, scales=None):
+    """replicate every eliminated variable once per index of the eliminated plates it lives in, multiply all factor
+    instances, sum out the copies (plate_to_scale[p]=k: the plate is k copies of itself)"""
+    plates = set(plates)
+    elim = set(elim)
+    if scales:
+        tiled = []
+        for names, arr in factors:
+            for p, k in scales.items():
+                if p in names:
+                    arr = np.concatenate([arr] * k, axis=names.index(p))
+            tiled.append((names, arr))
+        factors = tiled
+    Ep = plates & elim
+    lives = {v: sorted(ps & Ep) for v, ps in plated_lives(factors, plates).items()}
+    instances = []
+    copies = []
+    for names, arr in factors:
+        fp = [n for n in names if n in Ep]
+        shape = dict(zip(names, np.shape(arr)))
+        for idx in itertools.product(*(range(shape[p]) for p in fp)):
+            at = dict(zip(fp, idx))
+            inst = (names, arr)
+            for p in fp:
+                inst = nt_index(inst, p, at[p])
+            ren = {}
+            for v in inst[0]:
+                if v in elim and v not in plates:
+                    ren[v] = v + "@" + ",".join("%s%d" % (p, at[p]) for p in lives[v])
+                    copies.append(ren[v])
+            instances.append(nt_rename(inst, ren))
+    return ve_eliminate(sr, instances, copies)
+
+
+def plated_split_ok(factors, plates, e1, e2):
+    """(e1 then e2) computes the same unrolled quantity as (e1 | e2) at once, for every data:
+    both stages are valid on their own, and a variable summed in stage 1 is not shared across the indices of a
+    plate that is only product-reduced in stage 2 (it either lives in that plate or touches no factor inside it)"""
+    plates = set(plates)
+    if not plated_valid(factors, plates, e1):
+        return False
+    if not plated_valid(factors, plates, set(e1) | set(e2)):
+        return False
+    for x in e1:
+        if x in plates:
+            continue
+        mine = [set(names) for names, _ in factors if x in names]
+        for p in e2:
+            if p in plates:
+                has = [p in m for m in mine]
+                if any(has) and not all(has):
+                    return False
+    return True
+
+
+def check_plated(case, out):
+    S = funsor.sum_product
+    sr = SEMIRINGS[case["sr"]]
+    rs = np.random.RandomState(case["seed"])
+    sizes = dict(case["sizes"])
+    plates = list(case["plates"])
+    elim = list(case["eliminate"])
+    specs = case["factors"]
+    nts = []
+    params = []
+    for spec in specs:
+        names = list(spec["plates"]) + list(spec["vars"])
+        names = tuple(names[i] for i in rs.permutation(len(names)))
+        nts.append((names, sr.gen(rs, [sizes[n] for n in names])))
+        params.append(spec.get("param"))
+    anyparam = any(params)
+    points = PARAM_POINTS if anyparam else [{}]
+    wv = Variable("w", Real)
+    ffs = []
+    for (names, data), param in zip(nts, params):
+        t = mk_tensor(names, data, sizes, sr.dtype)
+        if param:
+            t = param_ops(sr, param)[0](t, wv)
+        ffs.append(t)
+
+    def nts_at(w):
+        return [(names, param_ops(sr, param)[1](data, w) if param else data) for (names, data), param in zip(nts, params)]
+
+    P = frozenset(plates)
+    E = frozenset(elim)
+    valid = plated_valid(nts, P, E)
+    lives = plated_lives(nts, P)
+    key = (case["sr"], repr(specs), repr(sorted(sizes.items())), repr(sorted(elim)), case["seed"])
+    allnames = set().union(*(set(n) for n, _ in nts)) if nts else set()
+    nontrivial = len(specs) >= 2 and any(sizes[p] >= 2 for p in P & E & allnames) and any(lives.get(v) for v in lives)
+    nest = "no-plate" if not (P & E) else "plates-%d" % len(P & E)
+    tags0 = [sr.name, nest] + (["kept-plate"] if (P - E) & allnames else []) + (["param-" + p for p in sorted(set(filter(None, params)))]) + (["scalar-factor"] if any(not n for n, _ in nts) else [])
+
+    # ---- pedantic raises exactly when a preserved variable lives in an eliminated plate
+    if not anyparam:
+        try:
+            r = S.sum_product(sr.sum_op, sr.prod_op, ffs, E, P, pedantic=True)
+            raised = None
+        except ValueError as e:
+            raised = e
+            r = None
+        except Exception as e:
+            raised = "other"
+            out.decline("C09.pedantic", exc_reason(e))
+        if raised != "other":
+            out.ok("C09.pedantic", (key, "pedantic"), nontrivial)
+            if valid and raised is not None and "preserved var" in str(raised):
+                out.fail("C09.pedantic", "pedantic raised %r on a well-formed elimination" % (raised,), tags0 + ["pedantic", "spurious-raise"])
+            if not valid and raised is None:
+                out.fail("C09.pedantic", "pedantic did not raise although a preserved variable lives in an eliminated plate (%s)" % ({v: sorted(l & E) for v, l in lives.items() if v not in E and l & E},), tags0 + ["pedantic", "missing-raise"])
+    if not valid:
+        return
+
+    cache = {}
+
+    def want_at(pt, scales=None):
+        k = (pt.get("w"), repr(scales))
+        if k not in cache:
+            cache[k] = plated_oracle(sr, nts_at(pt.get("w")), P, E, scales)
+        return cache[k]
+
+    def _prod(fs):
+        acc = None
+        for f in fs:
+            acc = f if acc is None else sr.prod_op(acc, f)
+        if acc is None:
+            acc = Number(sr.one if sr.carrier != "bool" else True)
+        return acc
+
+    def run(name, thunk, extra=(), want=want_at):
+        return observe_c09(out, "C09." + name.split("[")[0], (key, name), nontrivial, thunk, want, sizes, points, tags0 + [name.split("[")[0]] + list(extra))
+
+    run("sum_product", lambda: S.sum_product(sr.sum_op, sr.prod_op, ffs, E, P))
+    run("partial_sum_product", lambda: _prod(S.partial_sum_product(sr.sum_op, sr.prod_op, ffs, E, P)))
+    p2s = {p: frozenset() for p in plates}
+    run("modified_partial_sum_product", lambda: _prod(S.modified_partial_sum_product(sr.sum_op, sr.prod_op, ffs, E, dict(p2s))))
+    run("dynamic_partial_sum_product", lambda: _prod(S.dynamic_partial_sum_product(sr.sum_op, sr.prod_op, ffs, E, dict(p2s))))
+
+    # ---- two successive calls
+    el = sorted(E)
+    for mask in range(1, 2 ** len(el) - 1):
+        e1 = frozenset(x for i, x in enumerate(el) if mask >> i & 1)
+        e2 = E - e1
+        if not plated_split_ok(nts, P, e1, e2):
+            continue
+
+        def two(e1=e1, e2=e2):
+            mid = S.partial_sum_product(sr.sum_op, sr.prod_op, ffs, e1, P)
+            return _prod(S.partial_sum_product(sr.sum_op, sr.prod_op, mid, e2, P))
+
+        run("partial_sum_product_x2[%s|%s]" % ("".join(sorted(e1)), "".join(sorted(e2))), two, ["split", "first-" + ("plates" if e1 <= P else "vars" if not (e1 & P) else "mixed")])
+
+    # ---- plated einsum front end
+    if sr.name in EINSUM_BACKENDS_C09 and not anyparam:
+        import funsor.einsum as E_
+
+        outn = sorted(allnames - E)
+        outn = "".join(outn[i] for i in np.random.RandomState(case["seed"] + 3).permutation(len(outn)))
+        eqn = ",".join("".join(n) for n, _ in nts) + "->" + outn
+        b = EINSUM_BACKENDS_C09[sr.name]
+        if E == allnames - set(outn):
+            run("einsum_plated", lambda: E_.einsum(eqn, *ffs, plates="".join(plates), backend=b))
+            run("naive_plated_einsum", lambda: E_.naive_plated_einsum(eqn, *ffs, plates="".join(plates), backend=b))
+
+    # ---- plate scales are exponents of the plate's product
+    ep = sorted(P & E & allnames)
+    if ep and sr.prod_op in ops.PRODUCT_TO_POWER:
+        for scales in [{ep[0]: 2}] + ([{ep[0]: 3, ep[1]: 2}] if len(ep) > 1 else []):
+            run("sum_product_scaled[%s]" % sorted(scales.items()), lambda: S.sum_product(sr.sum_op, sr.prod_op, ffs, E, P, plate_to_scale=dict(scales)), ["plate_to_scale"], want=lambda pt, scales=scales: want_at(pt, scales))
+
+
+EINSUM_BACKENDS_C09 = {"add_mul": "numpy", "logaddexp_add": "funsor.einsum.numpy_log", "max_add": "funsor.einsum.numpy_map"}
+
+
+def observe_c09(out, contract, key, nontrivial, thunk, want_at, sizes, points, tags):
+    """like observe; ValueError / NotImplementedError = declined as the property allows, any other exception is
+    reported under its own tag (the property promises a ValueError, not an arbitrary crash)"""
+    try:
+        res = thunk()
+    except (ValueError, NotImplementedError) as e:
+        out.decline(contract, exc_reason(e) + ":" + str(e)[:30])
+        return None
+    except Exception as e:
+        out.decline(contract, "OTHER-EXCEPTION " + exc_reason(e))
+        return None
+    try:
+        nts = [eval_at(res, pt) for pt in points]
+    except NotGround as e:
+        out.decline(contract, "stays-lazy:%s" % e)
+        return res
+    except Exception as e:
+        out.decline(contract, "subs:" + exc_reason(e))
+        return res
+    out.ok(contract, key, nontrivial)
+    for pt, nt in zip(points, nts):
+        d = compare(nt, want_at(pt), sizes)
+        if d is not None:
+            out.fail(contract, ("at %s: " % (pt,) if pt else "") + d, tags)
+            break
+    return res
+
+
+# ==== SECTION: C11 ====  adjoints
+#
+# An expression is a tree over *occurrences*; occurrence k is a view of one (or, for cat, several) leaf tensors:
+#   ("id", leaf)                                  the leaf itself
+#   ("ren", leaf, ((old, new), ...))              leaf(old=new)                       (renaming)
+#   ("slice", leaf, t, new, start, step, m)       leaf(t=Slice(new, start, start+step*m.., step, n))  (strided slice)
+#   ("take", leaf, t, new, (i0, i1, ...))         leaf(t=Tensor([i0,i1,..])[new])     (injective index tensor)
+#   ("cat", (leaf1, leaf2, ...), t, new)          Cat(new, (leaf1, leaf2, ...), t)    (parts carry the private axis t)
+# Tree nodes: ("occ", k) | ("mul", e, e) | ("add", e, e) | ("red", e, vars).
+
+
+def adj_setup(case):
+    sr = SEMIRINGS[case["sr"]]
+    rs = np.random.RandomState(case["seed"])
+    leaves = []
+    for spec in case["leaves"]:
+        names = tuple(n for n, _ in spec)
+        shape = [k for _, k in spec]
+        leaves.append((names, sr.gen(rs, shape)))
+    return sr, leaves
+
+
+def occ_table(sr, leaves, occ, probe=None):
+    """named table of an occurrence.  probe = (leaf index, one-hot array, position): the occurrence reads the one-hot
+    array instead of the leaf (for cat: only at part `position`, every other part reads the semiring zero, because
+    Cat is a direct sum)"""
+
+    def data(i, pos=None):
+        names, arr = leaves[i]
+        if probe is not None:
+            li, onehot, ppos = probe
+            if i == li and (ppos is None or ppos == pos):
+                return names, onehot
+            if ppos is not None:
+                return names, np.full(np.shape(arr), sr.zero, dtype=float)
+        return names, arr
+
+    kind = occ[0]
+    if kind == "id":
+        return data(occ[1])
+    if kind == "ren":
+        return nt_rename(data(occ[1]), dict(occ[2]))
+    if kind == "slice":
+        _, i, t, new, start, step, m = occ
+        names, arr = data(i)
+        idx = [start + step * j for j in range(m)]
+        return (tuple(new if n == t else n for n in names), np.take(arr, idx, axis=names.index(t)))
+    if kind == "take":
+        _, i, t, new, idx = occ
+        names, arr = data(i)
+        return (tuple(new if n == t else n for n in names), np.take(arr, list(idx), axis=names.index(t)))
+    if kind == "cat":
+        _, parts, t, new = occ
+        tabs = [data(i, pos) for pos, i in enumerate(parts)]
+        names = tabs[0][0]
+        arrs = [nt_view(tb, names) for tb in tabs]
+        return (tuple(new if n == t else n for n in names), np.concatenate(arrs, axis=names.index(t)))
+    raise ValueError(kind)
+
+
+def occ_funsor(fleaves, leaves, occ):
+    kind = occ[0]
+    if kind == "id":
+        return fleaves[occ[1]]
+    if kind == "ren":
+        return fleaves[occ[1]](**dict(occ[2]))
+    if kind == "slice":
+        _, i, t, new, start, step, m = occ
+        n = dict(zip(leaves[i][0], np.shape(leaves[i][1])))[t]
+        stop = start + step * (m - 1) + 1
+        return fleaves[i](**{t: Slice(new, start, stop, step, n)})
+    if kind == "take":
+        _, i, t, new, idx = occ
+        n = dict(zip(leaves[i][0], np.shape(leaves[i][1])))[t]
+        return fleaves[i](**{t: Tensor(np.array(idx), OrderedDict([(new, Bint[len(idx)])]), n)})
+    if kind == "cat":
+        _, parts, t, new = occ
+        return Cat(new, tuple(fleaves[i] for i in parts), t)
+    raise ValueError(kind)
+
+
+def expr_occs(expr):
+    if expr[0] == "occ":
+        return {expr[1]}
+    if expr[0] in ("mul", "add"):
+        return expr_occs(expr[1]) | expr_occs(expr[2])
+    return expr_occs(expr[1])
+
+
+def adj_eval(sr, leaves, occs, expr, probe=None):
+    """naive evaluation.  probe = (k, leaf, one-hot, position): occurrence k reads the one-hot leaf and, the root being
+    linear in each occurrence, every summand that does not contain occurrence k is dropped (derivative of a sum)"""
+    kind = expr[0]
+    if kind == "occ":
+        k = expr[1]
+        return occ_table(sr, leaves, occs[k], probe[1:] if probe is not None and probe[0] == k else None)
+    if kind == "mul":
+        return nt_mul(sr, adj_eval(sr, leaves, occs, expr[1], probe), adj_eval(sr, leaves, occs, expr[2], probe))
+    if kind == "add":
+        if probe is not None:
+            inl = probe[0] in expr_occs(expr[1])
+            inr = probe[0] in expr_occs(expr[2])
+            assert not (inl and inr)
+            if inl:
+                return adj_eval(sr, leaves, occs, expr[1], probe)
+            if inr:
+                return adj_eval(sr, leaves, occs, expr[2], probe)
+        return nt_add(sr, adj_eval(sr, leaves, occs, expr[1], probe), adj_eval(sr, leaves, occs, expr[2], probe))
+    if kind == "red":
+        inner = adj_eval(sr, leaves, occs, expr[1], probe)
+        if probe is None:
+            assert set(expr[2]) <= set(inner[0]), "C11 cases reduce only variables the operand mentions"
+            return nt_reduce(sr, inner, list(expr[2]))
+        # a dropped summand may have been the only one mentioning a reduced variable: the derivative of the kept
+        # summand then carries the multiplicity of that variable
+        gs = {}
+        for o in occs:
+            t = occ_table(sr, leaves, o)
+            gs.update(zip(t[0], np.shape(t[1])))
+        return nt_reduce(sr, inner, list(expr[2]), gs)
+    raise ValueError(kind)
+
+
+def adj_build(sr, fleaves, leaves, occs, expr):
+    kind = expr[0]
+    if kind == "occ":
+        return occ_funsor(fleaves, leaves, occs[expr[1]])
+    if kind == "mul":
+        return sr.prod_op(adj_build(sr, fleaves, leaves, occs, expr[1]), adj_build(sr, fleaves, leaves, occs, expr[2]))
+    if kind == "add":
+        return sr.sum_op(adj_build(sr, fleaves, leaves, occs, expr[1]), adj_build(sr, fleaves, leaves, occs, expr[2]))
+    if kind == "red":
+        return adj_build(sr, fleaves, leaves, occs, expr[1]).reduce(sr.sum_op, frozenset(expr[2]))
+    raise ValueError(kind)
+
+
+def adj_oracle(sr, leaves, occs, expr, li, root_names, root_sizes):
+    """semiring derivative of the root w.r.t. leaf li: for every index point i0 of the leaf and every occurrence k
+    that reads the leaf, evaluate the root with that one occurrence reading the one-hot leaf e_{i0} (one at i0, zero
+    elsewhere) and all other occurrences unchanged; semiring-sum over k.  = sum over the variables the leaf does not
+    mention of the product of all other factor occurrences.  Axes: leaf inputs, then root inputs; a name that is both
+    a leaf input and a root input denotes the diagonal (off-diagonal entries are checked to be zero)."""
+    names, arr = leaves[li]
+    shape = np.shape(arr)
+    used = expr_occs(expr)
+    users = []  # (occurrence, position inside a cat or None)
+    for k, o in enumerate(occs):
+        if k not in used:
+            continue
+        if o[0] == "cat":
+            users += [(k, pos) for pos, i in enumerate(o[1]) if i == li]
+        elif o[1] == li:
+            users.append((k, None))
+    if not users:
+        return None  # the leaf does not occur
+    root_shape = None
+    full = None
+    for i0 in itertools.product(*(range(k) for k in shape)):
+        onehot = np.full(shape, sr.zero, dtype=float)
+        onehot[i0] = sr.one
+        acc = None
+        for k, pos in users:
+            r = adj_eval(sr, leaves, occs, expr, probe=(k, li, onehot, pos))
+            # a dropped summand may have carried some root inputs: broadcast to the root's inputs
+            assert set(r[0]) <= set(root_names)
+            r = nt_expand(r, tuple(root_names), root_sizes)
+            acc = r if acc is None else sr.np_sum(acc, r)
+        if full is None:
+            root_shape = np.shape(acc)
+            full = np.empty(shape + root_shape, dtype=float)
+        full[i0] = acc
+    lnames = ["%s" % n for n in names]
+    onames = list(root_names)
+    # diagonal convention for names shared by the leaf and the root
+    table = (tuple("L:" + n for n in lnames) + tuple(onames), full)
+    for n in names:
+        if n in onames:
+            tn, ta = table
+            ax_l = tn.index("L:" + n)
+            ax_o = tn.index(n)
+            diag = np.diagonal(ta, axis1=ax_l, axis2=ax_o)  # new last axis = the diagonal
+            k = ta.shape[ax_l]
+            off = np.moveaxis(ta, (ax_l, ax_o), (-2, -1))[..., ~np.eye(k, dtype=bool)]
+            assert np.all(off == sr.zero), "one-hot probe off the diagonal must be the semiring zero"
+            rest = tuple(x for x in tn if x not in ("L:" + n, n))
+            table = (rest + ("D:" + n,), diag)
+    final = tuple(x[2:] if x[:2] in ("L:", "D:") else x for x in table[0])
+    assert len(set(final)) == len(final)
+    return (final, table[1])
+
+
+def term_contains(term, leaf):
+    # reflect/lazy terms are alpha-mangled (bound inputs of a Tensor are renamed x -> x__BOUND_n, sharing the data
+    # buffer); the tape un-mangles them.  The leaf is a factor of the term iff some Tensor node has the leaf's buffer
+    # and the leaf's input names modulo the __BOUND suffix.
+    seen = set()
+    stack = [term]
+    lnames = tuple(leaf.inputs)
+    while stack:
+        x = stack.pop()
+        if x is leaf:
+            return True
+        if isinstance(x, Tensor) and x.data is leaf.data and tuple(n.split("__BOUND")[0] for n in x.inputs) == lnames:
+            return True
+        if isinstance(x, Funsor):
+            if id(x) in seen:
+                continue
+            seen.add(id(x))
+            stack.extend(x._ast_values)
+        elif isinstance(x, (tuple, frozenset, list)):
+            stack.extend(x)
+        elif isinstance(x, dict):
+            stack.extend(x.values())
+    return False
+
+
+def occ_names(leaves, o):
+    if o[0] == "id":
+        return set(leaves[o[1]][0])
+    if o[0] == "ren":
+        m = dict(o[2])
+        return {m.get(n, n) for n in leaves[o[1]][0]}
+    if o[0] in ("slice", "take"):
+        return {o[3] if n == o[2] else n for n in leaves[o[1]][0]}
+    if o[0] == "cat":
+        return {o[3] if n == o[2] else n for n in leaves[o[1][0]][0]}
+
+
+def adj_monomials(leaves, occs, expr):
+    k = expr[0]
+    if k == "occ":
+        return [frozenset(occ_names(leaves, occs[expr[1]]))]
+    if k == "mul":
+        return [m | n for m in adj_monomials(leaves, occs, expr[1]) for n in adj_monomials(leaves, occs, expr[2])]
+    if k == "add":
+        return adj_monomials(leaves, occs, expr[1]) + adj_monomials(leaves, occs, expr[2])
+    return [m - set(expr[2]) for m in adj_monomials(leaves, occs, expr[1])]
+
+
+def adj_has_unrelated(leaves, occs, expr):
+    """some reduction ranges over a variable that a whole summand of its operand does not mention"""
+    k = expr[0]
+    if k == "occ":
+        return False
+    if k in ("mul", "add"):
+        return adj_has_unrelated(leaves, occs, expr[1]) or adj_has_unrelated(leaves, occs, expr[2])
+    return any(not set(expr[2]) <= m for m in adj_monomials(leaves, occs, expr[1])) or adj_has_unrelated(leaves, occs, expr[1])
+
+
+def check_adjoint(case, out):
+    from funsor.adjoint import forward_backward
+    from funsor.optimizer import apply_optimizer
+
+    sr, leaves = adj_setup(case)
+    occs = [tuple(o) for o in case["occs"]]
+    expr = case["expr"]
+    fleaves = [Tensor(arr, OrderedDict((n, Bint[k]) for n, k in zip(names, np.shape(arr)))) for names, arr in leaves]
+    want_root = adj_eval(sr, leaves, occs, expr)
+    root_names = want_root[0]
+    sizes = dict(zip(root_names, np.shape(want_root[1])))
+    kinds = sorted({o[0] for o in occs} - {"id"})
+    multi = len({(o[1] if o[0] != "cat" else o[1]) for o in occs}) < len(occs)
+    if any(o[0] == "cat" and o[2] != o[3] for o in occs):
+        kinds = kinds + ["cat-part-name"]
+    tags0 = [sr.name] + (["unrelated-var"] if adj_has_unrelated(leaves, occs, expr) else []) + [{"ren": "rename", "slice": "slice", "take": "index-tensor", "cat": "cat", "cat-part-name": "cat-part-name"}[k] for k in kinds] + (["repeated-leaf"] if multi else []) + (["sum-node"] if "'add'" in repr(expr) else []) + (["free-output"] if root_names else [])
+    key = (case["sr"], repr(case["leaves"]), repr(occs), repr(expr), case["seed"])
+    nontrivial = len(occs) >= 2 and any(k >= 2 for _, arr in leaves for k in np.shape(arr))
+    for mode in case.get("modes", ["reflect", "lazy", "reflect+optimizer"]):
+        tags = tags0 + [mode]
+
+        def thunk():
+            interp = lazy if mode.startswith("lazy") else reflect
+            with interp:
+                e = adj_build(sr, fleaves, leaves, occs, expr)
+                if mode.endswith("optimizer"):
+                    e = apply_optimizer(e)
+            return e, forward_backward(sr.sum_op, sr.prod_op, e)
+
+        try:
+            term, (fwd, bwd) = thunk()
+        except Exception as e:
+            out.decline("C11.forward_backward", mode + ":" + exc_reason(e))
+            continue
+        # forward value == ordinary evaluation
+        try:
+            got = to_nt(fwd)
+        except NotGround as e:
+            out.decline("C11.forward", "stays-lazy:%s" % e)
+            continue
+        out.ok("C11.forward", (key, mode, "fwd"), nontrivial)
+        d = compare(got, want_root, sizes)
+        if d is not None:
+            out.fail("C11.forward", d, tags + ["forward"])
+        for li, (names, arr) in enumerate(leaves):
+            want = adj_oracle(sr, leaves, occs, expr, li, root_names, sizes)
+            if want is None:
+                continue
+            if not term_contains(term, fleaves[li]):
+                # the interpretation evaluated the substitution / Cat while building: the leaf object is not a
+                # factor of the term the tape sees, so the property says nothing about it
+                out.decline("C11.adjoint", mode + ":leaf-not-in-term")
+                continue
+            try:
+                a = bwd[fleaves[li]]
+                got = to_nt(a)
+            except NotGround as e:
+                out.decline("C11.adjoint", "stays-lazy:%s" % e)
+                continue
+            except Exception as e:
+                out.decline("C11.adjoint", "lookup:" + exc_reason(e))
+                continue
+            asizes = dict(sizes)
+            asizes.update(zip(want[0], np.shape(want[1])))
+            out.ok("C11.adjoint", (key, mode, "adj", li), nontrivial)
+            d = compare(got, want, asizes)
+            if d is not None:
+                out.fail("C11.adjoint", "leaf %d %s: %s" % (li, list(names), d), tags + ["adjoint"])
+
+
+# ==== SECTION: TAIL ====  dispatch / replay
+
+CHECKERS = {k[6:]: v for k, v in list(globals().items()) if k.startswith("check_") and k != "check_case"}
 
 
 def check_case(case):
+    import warnings
+
     out = Out()
     np.random.seed(case.get("seed", 0))
-    CHECKERS[case["kind"]](case, out)
+    with np.errstate(all="ignore"), warnings.catch_warnings():
+        warnings.simplefilter("ignore")
+        CHECKERS[case["kind"]](case, out)
     return out
 
 
